@@ -72,6 +72,25 @@ def may_be_none(T, a):
     return False
 
 
+def error_snapshot(exc):
+    """what an error says (its own attributes and those of the constraint it points to), as comparable data: a caller that
+    passes the error on - re-raised or wrapped in a warning - must pass it on saying the same thing"""
+    def k(v):
+        if isinstance(v, (S.SInt, S.SBool)):
+            return ("term", str(z3.simplify(S.term(v))))
+        if isinstance(v, (bool, int, str, bytes, type(None))):
+            return ("value", v)
+        return ("object", id(v))
+
+    snap = {kk: k(vv) for kk, vv in vars(exc).items() if not kk.startswith("_")}
+    c = getattr(exc, "constraint", None)
+    if c is not None and hasattr(c, "__dict__"):
+        for kk, vv in vars(c).items():
+            if not kk.startswith("_"):
+                snap["constraint." + kk] = k(vv)
+    return snap
+
+
 class RelayByte:
     """the byte the driver hands to a callee's request (opaque: the caller has no business looking at it)"""
 
@@ -257,6 +276,7 @@ class ProcessContract:
             n0 = ctx.fresh_int(f"n{tag}", 0)
             pos_add(ctx, n0)
         rec["exc"] = exc
+        exc._pyvc_snap = error_snapshot(exc)
         ctx.trace.append(item)
         raise PyExc(exc, "callee")
 
